@@ -247,6 +247,8 @@ def run_check(args):
     if not args.no_evidence:
         write_evidence(args, prop, tier, results, viol_runs, known_hits, other, harness, errors, time.time() - t0, n_runs)
     wall = time.time() - t0
+    slow = sorted(((r.get("wall", 0), r["idx"]) for r in results), reverse=True)[:3]
+    print("slowest sessions (s, run):", slow)
     print("%s %s: %d sessions, %d violations of %s, %d known-finding hits, %d other-property alarms, %d harness, %.1fs" % (
         prop, tier, len(results), len(viol_runs), prop, len(known_hits), sum(other.values()), len(harness), wall))
     return rc
